@@ -1661,6 +1661,13 @@ class Router:
             print("Incongruent Timestamp Detected!")
         except DuplicatedPacketException:
             print("Packet is duplicated")
+            # §F.3: a duplicate overheard while our own copy is still waiting in the CBF
+            # buffer means another forwarder was faster - stop contending and drop the copy.
+            cbf_key = (gbc_extended_header.so_pv.gn_addr, gbc_extended_header.sn)
+            with self._cbf_lock:
+                cbf_timer = self._cbf_buffer.pop(cbf_key, None)
+            if cbf_timer is not None:
+                cbf_timer.cancel()
         except DecodeError as e:
             print(str(e))
         return None
